@@ -20,8 +20,7 @@ class CellTranslator(AbstractTranslator):
         """
         from excel2pycl.src.translators.entry_point_token_translator import EntryPointTokenTranslator
 
-        if not cell.has_handled_identifiers():
-            excel.fill_cell(cell)
+        excel.fill_cell(cell)
         if not context.get_cell(cell):
             if isinstance(cell.value, str) and cell.value.find('=') == 0:
                 from excel2pycl.src.ast_builder import AstBuilder
